@@ -929,7 +929,7 @@ def gen_invocation(b):
     shape = rng.random()
     det = {}
     if rng.random() < 0.3:
-        det["timeout"] = V("int", i=rng.choice([1000, 3000]))
+        det["timeout"] = V("int", i=rng.choice([1000, 3000, 3000, 2 ** 62]))
     if rng.random() < 0.4:
         det["receive_progress"] = V("bool", b=True)
     inv = lambda progress=False: b.msg("invocation", req={"lit": iid}, reg=reg, tag=b.tag(),
@@ -982,7 +982,7 @@ def gen_invocation(b):
         b.burst([inv()])                               # same id after the end: stale
         if iid > 1:
             b.burst([b.msg("invocation", req={"lit": iid - 1}, reg=reg, tag=b.tag())])   # older id: stale
-    elif shape < 0.9 and "timeout" in det:
+    elif shape < 0.9 and "timeout" in det and det["timeout"]["i"] < 10 ** 6:
         b.burst([inv()])
         if rng.random() < 0.5:
             b.burst([], adv=det["timeout"]["i"])       # the invocation's own timeout
@@ -1234,6 +1234,27 @@ def monitor_c16(sched, res):
             if not any(x["e"] in ("invctx", "invret") and x.get("req") == req and x["b"] == b for x in T.obs[pos:]):
                 v("INTERRUPT did not cancel the handler's context", "request %d, burst %d" % (req, b))
             running.pop(req, None)
+    # the handler's context is cancelled only on INTERRUPT, on the invocation's
+    # own timeout, once the invocation is answered, or when the client stops
+    inv_t = {}
+    for x in T.sent:
+        if x[3]["t"] == "invocation" and x[4] not in inv_t:
+            to = ((x[3].get("details") or {}).get("timeout") or {})
+            inv_t[x[4]] = (x[2], to.get("i") if to.get("ty") in ("int", "uint") else None)
+    for pos, ob in enumerate(T.obs):
+        if ob["e"] == "invctx" or (ob["e"] == "inv" and ob.get("ctx")):
+            req = ob.get("req")
+            why = any(x[3]["t"] == "interrupt" and x[4] == req and x[0] < pos for x in T.sent)
+            t0, to = inv_t.get(req, (None, None))
+            if to is not None and to > 0 and ob["t"] >= t0 + to:
+                why = True
+            if any(p < pos or o2["b"] == ob["b"] for p, o2 in finals.get(req, [])):
+                why = True
+            if T.end_t is not None and T.end_t <= ob["t"]:
+                why = True
+            if not why:
+                v("handler context cancelled without INTERRUPT or timeout",
+                  "request %s at t=%d (invocation at %s, timeout option %s)" % (req, ob["t"], t0, to))
     return bad
 
 
